@@ -223,6 +223,37 @@ def run(out, tier, prop):
         behs.append({"src": "poison", "mode": "poison", "rounds": 20 if quick else 200, "reuse": 3, "steps": []})
     lines, found = execute(behs, prop.lower())
     judge(out, behs, lines, found, prop)
+    if prop == "C05":
+        extmap(out, tier)
+
+
+def extmap(out, tier):
+    """the spans' type maps (spec/Extensions): TLC -simulate histories of new / close / insert / replace / remove / get, run on a
+    real Registry; TLC validates what every operation returned, which stored values were dropped and that new spans start empty"""
+    quick = tier == "quick"
+    DE = SPEC / "Extensions"
+    per = 40 if quick else 400
+    r = vlib.tlc(DE, "MCExtensionsSim", workers=4, simulate=per, depth=52, seed_=vlib.seed() + 55, timeout=600)
+    if not r.ok:
+        vlib.log(r.out[-3000:])
+        raise vlib.ToolError("MCExtensionsSim failed: %s" % r.kind)
+    behs = r.tagged("BEH")
+    out.tlc_runs.append({"what": "MCExtensionsSim -simulate: type-map histories (10 spans, 3 types, 50 operations); invariants Unique, ClosedIsEmpty", "behaviours": len(behs), "wall_s": round(r.wall, 1)})
+    w = vlib.workdir("c05x")
+    vlib.write_ndjson(w / "behaviours.ndjson", behs)
+    bins = vlib.cargo_build(["extmap"])
+    vlib.run_bin(bins["extmap"], env={"VH_IN": w / "behaviours.ndjson", "VH_OUT": w / "trace.ndjson"}, timeout=600)
+    lines = vlib.read_ndjson(w / "trace.ndjson")
+    found, _ = trace.validate(DE, "ExtensionsTrace", lines, "c05x", nchunks=4, jobs=4, tags=("BAD",))
+    seen = set()
+    for b, pos, rec in sorted(found["BAD"], key=lambda x: (x[0], x[1])):
+        if b in seen:
+            continue
+        seen.add(b)
+        out.violation("type-map history %d, operation %d (%s): returned value / dropped values / initial contents contradict Extensions: %s" % (b, pos, rec.get("op"), json.dumps(rec)[:400]),
+                      {"extmap_behaviour": behs[b], "failing_step": pos, "observed": rec})
+    out.extra["extmap_histories"] = len(behs)
+    return len(behs)
 
 
 def judge(out, behs, lines, found, prop):
@@ -259,6 +290,18 @@ def judge(out, behs, lines, found, prop):
 
 def replay(out, path, prop):
     d = json.load(open(path))["replay"]
+    if "extmap_behaviour" in d:
+        w = vlib.workdir("c05x_replay")
+        vlib.write_ndjson(w / "behaviours.ndjson", [d["extmap_behaviour"]])
+        bins = vlib.cargo_build(["extmap"])
+        vlib.run_bin(bins["extmap"], env={"VH_IN": w / "behaviours.ndjson", "VH_OUT": w / "trace.ndjson"}, timeout=600)
+        lines = vlib.read_ndjson(w / "trace.ndjson")
+        for x in lines:
+            print(json.dumps(x))
+        found, _ = trace.validate(SPEC / "Extensions", "ExtensionsTrace", lines, "c05x_replay", nchunks=1, jobs=1, tags=("BAD",))
+        for b, pos, rec in found["BAD"]:
+            out.violation("type-map history: operation %d contradicts Extensions" % pos, d)
+        return
     lines, found = execute([d["behaviour"]], prop.lower() + "_replay")
     for x in lines:
         print(json.dumps(x))
